@@ -33,7 +33,7 @@ var c03Kinds = []string{
 	"hook:serve.begin", "hook:serve.listener", "hook:serve.handshake.printed", "hook:serve.serving",
 	"line-prefix", "idle-kill", "in-call:exit", "in-call:kill9", "in-stream",
 	"broker:plugin-accept", "broker:plugin-accept-sent", "broker:plugin-dial", "broker:after-nextid", "broker:knock",
-	"stdio-chunk", "timed-kill", "reattach-kill",
+	"stdio-chunk", "timed-kill", "reattach-kill", "rejected-line-then-more",
 }
 
 var c03Ops = []string{"start", "client", "dispense", "ping", "call", "stream", "broker_dial", "broker_accept", "write"}
@@ -75,6 +75,8 @@ func c03Gen(t *rapid.T) any {
 			c.Op = oneOf(t, "op", c03Ops)
 		case "in-stream":
 			c.Arg = uniform(t, "at", 5)
+		case "rejected-line-then-more":
+			c.Arg = oneOf(t, "morelines", []int{1, 2, 3, 50})
 		}
 		if c03Valid(c) {
 			return c
@@ -101,6 +103,10 @@ func c03Enum() (int, func(i int) any) {
 			case "in-stream":
 				for _, at := range []int{0, 2} {
 					cells = append(cells, &c03Case{Proto: proto, Kind: k, Arg: at})
+				}
+			case "rejected-line-then-more":
+				for _, n := range []int{1, 2, 50} {
+					cells = append(cells, &c03Case{Proto: proto, Kind: k, Arg: n})
 				}
 			default:
 				cells = append(cells, &c03Case{Proto: proto, Kind: k})
@@ -169,7 +175,12 @@ func c03Run(ci any) (out Outcome) {
 	case "stdio-chunk":
 		addHook("grpcstdio.chunk")
 	}
-	if c.Kind == "line-prefix" {
+	if c.Kind == "rejected-line-then-more" {
+		// a plugin (or a binary that is no plugin at all) whose first line is rejected and which
+		// keeps printing before it dies: usage text, a crash trace ...
+		more := []byte(strings.Repeat("more output after the rejected first line\n", c.Arg))
+		cc.Cmd = fakeCmd(FakeSpec{Steps: []FakeStep{{Op: "out", Data: append([]byte("1|999|tcp|127.0.0.1:1|netrpc|\n"), more...)}, {Op: "sleep", Ms: 20}, {Op: "exit", Code: 2}}})
+	} else if c.Kind == "line-prefix" {
 		// a fake plugin that dies in the middle of (or right before) its handshake line
 		full := "1|1|unix|" + filepath.Join(caseDir, "nosuch.sock") + "|" + map[bool]string{true: "netrpc", false: "grpc"}[c.Proto == "netrpc"] + "|"
 		n := min(c.Arg, len(full))
@@ -219,7 +230,7 @@ func c03Run(ci any) (out Outcome) {
 	const opBound = 15 * time.Second
 
 	// ---- phase 1: bring the plugin up as far as the crash point allows
-	earlyCrash := strings.HasPrefix(c.Kind, "hook:serve.") || c.Kind == "line-prefix" || (c.Kind == "timed-kill" && (c.Op == "start" || c.Op == "client" || c.Op == "dispense"))
+	earlyCrash := strings.HasPrefix(c.Kind, "hook:serve.") || c.Kind == "line-prefix" || c.Kind == "rejected-line-then-more" || (c.Kind == "timed-kill" && (c.Op == "start" || c.Op == "client" || c.Op == "dispense"))
 	if c.Kind == "timed-kill" && c.Op == "start" {
 		// the kill is timed relative to the launch
 		go func() {
@@ -241,7 +252,7 @@ func c03Run(ci any) (out Outcome) {
 		}
 		// a prefix with fewer than four fields cannot be a handshake; a longer truncated line is
 		// parseable and may be accepted (later calls must fail either way)
-		if c.Kind == "hook:serve.begin" || c.Kind == "hook:serve.listener" || (c.Kind == "line-prefix" && c.Arg <= 8) {
+		if c.Kind == "hook:serve.begin" || c.Kind == "hook:serve.listener" || (c.Kind == "line-prefix" && c.Arg <= 8) || c.Kind == "rejected-line-then-more" {
 			if serr == nil {
 				out.violate("Start succeeded although the plugin died before completing its handshake line; %s", desc)
 				return
@@ -344,7 +355,7 @@ func c03Run(ci any) (out Outcome) {
 			}
 			return err
 		case "broker_dial": // plugin accepts (later), host dials
-			id := hostNextID(h)
+			id := freshBrokerID()
 			go h.DoT(Cmd{Op: "broker_accept", ID: id, N: 20}, 12*time.Second)
 			_, err := c14HostDial(h, id)
 			if err == nil {
@@ -352,7 +363,7 @@ func c03Run(ci any) (out Outcome) {
 			}
 			return err
 		case "broker_accept": // host accepts, plugin dials (later)
-			id := hostNextID(h)
+			id := freshBrokerID()
 			c14HostAccept(h, id)
 			_, err := h.DoT(Cmd{Op: "broker_dial", ID: id, N: 20}, 12*time.Second)
 			if err == nil {
@@ -384,7 +395,7 @@ func c03Run(ci any) (out Outcome) {
 			// net/rpc: the plugin's Accept has no named point; it dies right after reserving the id
 			what = "host Dial of an id the plugin reserved before dying"
 		}
-		id := hostNextID(h) + 100
+		id := freshBrokerID()
 		if !out.bounded(what, opBound+5*time.Second, func() {
 			if c.Proto == "netrpc" {
 				go h.DoT(Cmd{Op: "exit", N: 3}, 5*time.Second)
@@ -397,7 +408,7 @@ func c03Run(ci any) (out Outcome) {
 		}
 	case "broker:plugin-dial":
 		what = "host Accept of an id whose dialer died"
-		id := hostNextID(h) + 100
+		id := freshBrokerID()
 		if !out.bounded(what, opBound+5*time.Second, func() {
 			switch hh := h.(type) {
 			case *rpcHandle:
@@ -534,14 +545,14 @@ func c03ReattachKill(out *Outcome, c *c03Case, first *plugin.Client, cmd *exec.C
 			switch hh := h.(type) {
 			case *grpcHandle:
 				if !out.bounded("broker Accept on the host after the plugin died", opBound, func() {
-					if ln, err := hh.broker.Accept(hh.broker.NextId()); err == nil {
+					if ln, err := hh.broker.Accept(freshBrokerID()); err == nil {
 						ln.Close()
 					}
 				}) {
 					return
 				}
 				var derr2 error
-				if !out.bounded("broker Dial on the host after the plugin died", opBound, func() { _, derr2 = c14HostDial(h, hh.broker.NextId()+50) }) {
+				if !out.bounded("broker Dial on the host after the plugin died", opBound, func() { _, derr2 = c14HostDial(h, freshBrokerID()) }) {
 					return
 				}
 				if derr2 == nil {
@@ -552,7 +563,7 @@ func c03ReattachKill(out *Outcome, c *c03Case, first *plugin.Client, cmd *exec.C
 				var aerr error
 				if !out.bounded("broker Accept on the host after the plugin died", opBound, func() {
 					var conn net.Conn
-					if conn, aerr = hh.mux.Accept(hh.mux.NextId() + 50); aerr == nil {
+					if conn, aerr = hh.mux.Accept(freshBrokerID()); aerr == nil {
 						conn.Close()
 					}
 				}) {
@@ -602,7 +613,7 @@ func c03After(out *Outcome, cl *plugin.Client, h Handle, desc string) {
 			return
 		}
 		var derr error
-		if !out.bounded("a brokered Dial after the plugin died", opBound+5*time.Second, func() { _, derr = c14HostDial(h, hostNextID(h)+500) }) {
+		if !out.bounded("a brokered Dial after the plugin died", opBound+5*time.Second, func() { _, derr = c14HostDial(h, freshBrokerID()) }) {
 			return
 		}
 		if derr == nil {
